@@ -498,6 +498,27 @@ func c08(r *core.Run) {
 			r.Check(nEmptyArg > 0, "O3", fname, "tests-empty-argument", p.Pos(fn.Pos()), "an empty change map is detected", "an empty change map is not detected: an empty change event is published")
 			r.Check(nEmptyRev > 0, "O3", fname, "tests-empty-revert-map", p.Pos(fn.Pos()), "an apply handler reporting 'nothing changed' (empty revert map) is detected", "an apply handler reporting that nothing changed is ignored: an event is published for a change that changes nothing")
 		}
+		// an apply handler that panics has failed: the panic leaves the event method (and is turned
+		// into an error reply by the request's own recover); a recover inside the event method or its
+		// helpers can turn a failed apply into "no error" and the event is published
+		{
+			rec := ""
+			seenF := map[*ssa.Function]bool{}
+			for _, h := range p.Helpers(fn) {
+				for _, f2 := range withAnon(h) {
+					if seenF[f2] {
+						continue
+					}
+					seenF[f2] = true
+					for _, c := range core.Calls(f2) {
+						if core.CalleeName(c) == "builtin:recover" {
+							rec = p.InstrPos(c)
+						}
+					}
+				}
+			}
+			r.Check(rec == "", "O3", fname, "apply-panic-is-not-recovered-here", p.Pos(fn.Pos()), "no recover in the event method or its helpers", "the event method (or a helper / deferred closure of it) calls recover() at "+rec+": a panicking apply handler - a failed apply - can be swallowed, after which the event is published and the listeners run")
+		}
 		// ---- O4 ----
 		c08Validity(r, "O4", m)
 		// ---- O5 ----
@@ -680,6 +701,21 @@ func c08Validity(r *core.Run, rule string, m *evMethod) {
 					r.Bad(rule, fname, "panics-on:reserved-name("+n+")", p.InstrPos(tblAt), "the reserved-name table lookup does not dominate the apply and the publish")
 				}
 				continue
+			}
+			if _, direct := guards[key]; !direct {
+				// the check may live in a helper (validateName(event), a message table): evaluate the
+				// method under event == n
+				var evPrm *ssa.Parameter
+				for _, prm := range fn.Params[1:] {
+					if prm.Name() == evParam {
+						evPrm = prm
+					}
+				}
+				targets := append(append([]ssa.CallInstruction{}, m.A...), m.P...)
+				if evPrm != nil && len(targets) > 0 && neverReachesUnder(p, fn, evPrm, n, targets) {
+					r.OK(rule, fname, "panics-on:reserved-name("+n+")", p.Pos(fn.Pos()), "with the event name equal to "+n+" every path of the method (through its helpers) panics before apply and publish")
+					continue
+				}
 			}
 			need(key, "reserved-name("+n+")")
 		}
